@@ -14,12 +14,20 @@ Open Scope list_scope.
 Inductive case :=
 | KScript (c : scase)
 | KAbrupt (kind : tkind) (first : cses) (est_cb fin_cb : nat) (ended : bool)
-          (peer_saw_end : bool).   (* the peer, where it waited for it, saw the connection end (true where it did not wait) *)
+          (peer_saw_end : bool)    (* the peer, where it waited for it, saw the connection end (true where it did not wait) *)
+(* a peer that vanishes while Authenticate is deciding (Corr/HsChecks.v) *)
+| KVanish (kind : tkind) (verdict : ares) (est_cb fin_cb : nat) (ended : bool) (auth_calls : nat)
+          (reached : bool).        (* the harness got the server as far as the Authenticate call *)
 
 Definition check (c : case) : bool :=
   match c with
   | KScript s => c14_check s
   | KAbrupt _ _ est fin ended saw => Nat.eqb est 0 && Nat.eqb fin 0 && ended && saw
+  (* the connection is released, Authenticate was asked once, callbacks come in pairs, and no session is
+     announced unless the verdict was a known role *)
+  | KVanish _ verdict est fin ended calls reached =>
+      reached && ended && Nat.eqb calls 1 && Nat.eqb est fin &&
+      match verdict with ARole => Nat.leb est 1 | _ => Nat.eqb est 0 end
   end.
 Definition agrees (c : case) : bool :=
   match c with
@@ -30,6 +38,12 @@ Definition agrees (c : case) : bool :=
   | KAbrupt k first est fin ended saw =>
       match abrupt_model k first with
       | (e, f, d) => Nat.eqb est e && Nat.eqb fin f && Bool.eqb ended d && saw
+      end
+  | KVanish k verdict est fin ended calls reached =>
+      match vanish_model k verdict with
+      | (e, f, d, a) =>
+          reached && Bool.eqb ended d && Nat.eqb calls a &&
+          match verdict with ARole => Nat.eqb est fin | _ => Nat.eqb est e && Nat.eqb fin f end
       end
   end.
 Definition mismatches (cs : list case) : list nat := bad_indices agrees cs.
